@@ -88,6 +88,7 @@ package controllerstate
 //@
 //@ func (*StateAdapter).Create
 //@   props C08
+//@   requires [opts-nonnil] forall i int :: 0 <= i && i < len(options) ==> options[i] != nil
 //@   requires adapter != nil && adapter.UpdateLimiter != nil && adapter.OwnedState != nil && r != nil
 //@   at State).Create #1
 //@     assert [create-confined] isOutputType(adapter, mdOf(r).typ)
@@ -102,6 +103,7 @@ package controllerstate
 //@
 //@ func (*StateAdapter).modify
 //@   props C08
+//@   requires [opts-nonnil] forall i int :: 0 <= i && i < len(options) ==> options[i] != nil
 //@   requires adapter != nil && adapter.UpdateLimiter != nil && adapter.OwnedState != nil && emptyResource != nil
 //@   at State).ModifyWithResult #1
 //@     assert [modify-confined] isOutputType(adapter, mdOf(emptyResource).typ)
@@ -123,6 +125,7 @@ package controllerstate
 //@
 //@ func (*StateAdapter).Teardown
 //@   props C08
+//@   requires [opts-nonnil] forall i int :: 0 <= i && i < len(opOpts) ==> opOpts[i] != nil
 //@   requires adapter != nil && adapter.UpdateLimiter != nil && adapter.OwnedState != nil && resourcePointer != nil
 //@   at State).Teardown #1
 //@     assert [teardown-confined] isOutputType(adapter, typeOf(resourcePointer))
@@ -130,6 +133,7 @@ package controllerstate
 //@
 //@ func (*StateAdapter).Destroy
 //@   props C08
+//@   requires [opts-nonnil] forall i int :: 0 <= i && i < len(opOpts) ==> opOpts[i] != nil
 //@   requires adapter != nil && adapter.UpdateLimiter != nil && adapter.OwnedState != nil && resourcePointer != nil
 //@   at State).Destroy #1
 //@     assert [destroy-confined] isOutputType(adapter, typeOf(resourcePointer))
